@@ -22,6 +22,8 @@ func main() {
 		os.Exit(vcodec.FieldMapMain(os.Args[2:]))
 	case "framer":
 		os.Exit(vcodec.FramerMain(os.Args[2:]))
+	case "robust":
+		os.Exit(vcodec.RobustMain(os.Args[2:]))
 	case "wire":
 		os.Exit(vcodec.WireMain(os.Args[2:]))
 	case "values":
